@@ -275,7 +275,11 @@ func (w *World) structSort(t types.Type, st *types.Struct) string {
 	w.structByTyp[key] = si
 	w.structs[name] = si
 	for i := 0; i < st.NumFields(); i++ {
-		si.Fields = append(si.Fields, fmt.Sprintf("%s.%s", name, sanitize(st.Field(i).Name())))
+		fname := sanitize(st.Field(i).Name())
+		if fname == "_" {
+			fname = fmt.Sprintf("_blank%d", i)
+		}
+		si.Fields = append(si.Fields, fmt.Sprintf("%s.%s", name, fname))
 	}
 	// make sure nested sorts are declared first
 	for i := 0; i < st.NumFields(); i++ {
@@ -375,7 +379,11 @@ func (w *World) comp(name, sort, kind string) *Comp {
 func (w *World) fieldComp(t types.Type, i int) *Comp {
 	si := w.structInfo(t)
 	f := si.St.Field(i)
-	name := "F!" + strings.TrimPrefix(si.Sort, "S!") + "!" + sanitize(f.Name())
+	fname := sanitize(f.Name())
+	if fname == "_" {
+		fname = fmt.Sprintf("_blank%d", i)
+	}
+	name := "F!" + strings.TrimPrefix(si.Sort, "S!") + "!" + fname
 	return w.comp(name, "(Array Int "+w.sortOf(f.Type())+")", "field")
 }
 
@@ -483,6 +491,8 @@ const basePrelude = `(declare-sort Str 0)
 (declare-fun sbyte (Int) Str)
 (assert (forall ((c Int)) (! (and (= (slen (sbyte c)) 1) (=> (and (<= 0 c) (<= c 255)) (= (sat (sbyte c) 0) c))) :pattern ((sbyte c)))))
 (declare-fun slt (Str Str) Bool)
+(declare-fun idx (Int Int) Int)
+(assert (forall ((o Int) (i Int)) (! (= (idx o i) (+ o i)) :pattern ((idx o i)))))
 (declare-datatypes ((Slice 0)) (((mk-slice (sbase Int) (soff Int) (slength Int) (scap Int)))))
 (define-fun nilslice () Slice (mk-slice 0 0 0 0))
 (define-fun wfslice ((s Slice)) Bool (and (>= (sbase s) 0) (>= (soff s) 0) (>= (slength s) 0) (>= (scap s) (slength s)) (<= (scap s) 9223372036854775807) (=> (= (sbase s) 0) (and (= (scap s) 0) (= (soff s) 0)))))
